@@ -728,6 +728,15 @@ theorem h2_spec_holds_on_model (maxReq : Nat) (ops : List PoolH2.Op) :
     PoolH2.obsSpec s.maxReq s.ext s.told (PoolH2.obsOf s) = true :=
   PoolH2.obsSpec_holds _ (h2_reach_inv maxReq ops)
 
+/-- the executable `NewStream` predicate (which connection serves a request, how many connections are dialled, what a
+refusal takes) holds of every `NewStream` step of the model, in every reachable state, for every dial outcome. -/
+theorem h2_newstream_spec_holds_on_model (maxReq : Nat) (ops : List PoolH2.Op) (dial : Dial) :
+    let s := hreach maxReq ops
+    let r := PoolH2.newStream s dial
+    PoolH2.newStreamSpec s.maxReq s.ext s.told dial.fails (PoolH2.obsOf s) (PoolH2.resGranted r.2) r.2.render
+      (PoolH2.obsOf r.1) = true :=
+  PoolH2.newStreamSpec_holds _ (h2_reach_inv maxReq ops) dial
+
 /-! ### non-vacuity -/
 -- request, GOAWAY, request: one replacement is dialled and counted, the old connection drains uncounted
 example : ((PoolH2.trace (PoolH2.init 0) [.newStream .ok, .goAway 0, .newStream .ok, .newStream .ok]).map
